@@ -144,7 +144,7 @@ func genC02(g *Gen) {
 			}
 			suffix := ""
 			if g.R.Pct(70) {
-				suffix = fmt.Sprintf("~S%d", g.R.Intn(12))
+				suffix = fmt.Sprintf("~S%d", g.R.Intn(16))
 				if g.R.Pct(25) {
 					big := []int{0, 1, 1023, 65535, 65536, 65537, 200000}[g.R.Intn(7)]
 					if sizeCap > 0 && big > sizeCap {
@@ -240,6 +240,24 @@ func genC04(g *Gen) {
 			}
 			last.Slots = append(last.Slots, [2]int{s, s})
 		}
+	}
+	if g.R.Pct(50) {
+		// uneven replica counts: some masters lose some or all of their replicas (a replica-less set next to sets with replicas)
+		var kept []NodeDesc
+		drop := map[string]int{}
+		for _, n := range t.Nodes {
+			if n.Master {
+				drop[n.ID] = g.R.Intn(4) // how many of its replicas go away
+			}
+		}
+		for _, n := range t.Nodes {
+			if !n.Master && drop[n.MasterID] > 0 {
+				drop[n.MasterID]--
+				continue
+			}
+			kept = append(kept, n)
+		}
+		t.Nodes = kept
 	}
 	p.Topos = []Topology{t}
 	g.swarmProxy()
@@ -606,6 +624,65 @@ func genC08(g *Gen) {
 		total += len(r.Raw)
 	}
 	switch {
+	case p.Variant == "aligned":
+		// cuts related to the request boundaries and to each other: on a boundary, a few fixed distances before/after one, and
+		// at (start of a request + length of an earlier request). Equal leftover lengths, reads that end exactly on a boundary and
+		// leftovers as long as an earlier request are far more frequent than under uniformly random cuts; every chunk is a
+		// read of its own.
+		p.Proxy.BufCap = []int{257, 4096, 65536, 65536}[g.R.Intn(4)]
+		p.Kernel.ShortReadPct = 0
+		cp.PollAfterSend = true
+		var bounds []int
+		off := 0
+		for _, r := range cp.Reqs {
+			off += len(r.Raw)
+			bounds = append(bounds, off)
+		}
+		var S []int
+		for i := g.R.Range(1, 3); i > 0; i-- {
+			S = append(S, g.R.Range(1, 24))
+		}
+		cuts := map[int]bool{}
+		for j, b := range bounds {
+			start := 0
+			if j > 0 {
+				start = bounds[j-1]
+			}
+			if g.R.Pct(50) {
+				cuts[b] = true
+			}
+			for _, sd := range S {
+				if g.R.Pct(30) {
+					cuts[b-sd] = true
+				}
+				if g.R.Pct(30) {
+					cuts[b+sd] = true
+				}
+			}
+			if j > 0 && g.R.Pct(40) {
+				i := g.R.Intn(j)
+				li := len(cp.Reqs[i].Raw)
+				if g.R.Pct(30) && i > 0 {
+					li += len(cp.Reqs[i-1].Raw) // two earlier requests joined
+				}
+				if start+li < b {
+					cuts[start+li] = true
+				}
+			}
+		}
+		var cs []int
+		for c := range cuts {
+			if c > 0 && c < total {
+				cs = append(cs, c)
+			}
+		}
+		sort.Ints(cs)
+		prev := 0
+		for _, c := range cs {
+			cp.Chunks = append(cp.Chunks, c-prev)
+			prev = c
+		}
+		cp.Chunks = append(cp.Chunks, total-prev)
 	case cutPos >= 0:
 		a := cutPos % (total - 1)
 		cp.Chunks = []int{a + 1}
